@@ -1,6 +1,7 @@
 package main
 
 import (
+	"strconv"
 	"encoding/json"
 	"fmt"
 	"go/token"
@@ -55,6 +56,8 @@ type Engine struct {
 	models          map[string]*model
 	extraOverlay    map[string]string // path -> replacement file (self-test mutations)
 	curProp         string            // property being checked in this run
+	guarded         map[string]guardInfo // guarded field key -> mutex field
+	lockLevels      map[string]lockLevel // mutex field key -> level in the lock order
 	specQuant       map[*ssa.Function]bool
 	boundedResults  []boundedResult
 	misfits         []*Contract       // contracts whose clauses no longer type-check against the code
@@ -227,6 +230,57 @@ func (eng *Engine) load(mirror string, patterns []string) error {
 		sp := eng.pkgs[path]
 		if sp == nil {
 			continue // package not loaded in this run
+		}
+		for _, g := range ps.levels {
+			i := strings.IndexByte(g[0], '.')
+			tn, _ := sp.Pkg.Scope().Lookup(g[0][:i]).(*types.TypeName)
+			if tn == nil {
+				return fmt.Errorf("%s: locklevel: type %s not found", dir, g[0][:i])
+			}
+			stt, ok := tn.Type().Underlying().(*types.Struct)
+			mi := -1
+			for k := 0; ok && k < stt.NumFields(); k++ {
+				if stt.Field(k).Name() == g[0][i+1:] {
+					mi = k
+				}
+			}
+			if mi < 0 {
+				return fmt.Errorf("%s: locklevel %s: no such field", dir, g[0])
+			}
+			lv, _ := strconv.Atoi(g[1])
+			if eng.lockLevels == nil {
+				eng.lockLevels = map[string]lockLevel{}
+			}
+			eng.lockLevels[fmt.Sprintf("F|%s|%d", eng.sorts.structKey(tn.Type()), mi)] = lockLevel{level: lv, name: strings.TrimPrefix(path, modulePath+"/") + "." + g[0]}
+		}
+		for _, g := range ps.guards {
+			// guarded Type.field by mu
+			i := strings.IndexByte(g[0], '.')
+			tn, _ := sp.Pkg.Scope().Lookup(g[0][:i]).(*types.TypeName)
+			if tn == nil {
+				return fmt.Errorf("%s: guarded: type %s not found", dir, g[0][:i])
+			}
+			stt, ok := tn.Type().Underlying().(*types.Struct)
+			if !ok {
+				return fmt.Errorf("%s: guarded: %s is not a struct", dir, g[0][:i])
+			}
+			fi, mi := -1, -1
+			for k := 0; k < stt.NumFields(); k++ {
+				if stt.Field(k).Name() == g[0][i+1:] {
+					fi = k
+				}
+				if stt.Field(k).Name() == g[1] {
+					mi = k
+				}
+			}
+			if fi < 0 || mi < 0 {
+				return fmt.Errorf("%s: guarded %s by %s: no such field", dir, g[0], g[1])
+			}
+			if eng.guarded == nil {
+				eng.guarded = map[string]guardInfo{}
+			}
+			sk := eng.sorts.structKey(tn.Type())
+			eng.guarded[fmt.Sprintf("F|%s|%d", sk, fi)] = guardInfo{muKey: fmt.Sprintf("F|%s|%d", sk, mi), name: g[0]}
 		}
 		for _, c := range ps.contracts {
 			c.PkgPath = path
